@@ -5,7 +5,7 @@ the AST of _subscription_manager.py on every run.
 """
 import ast
 import z3
-from pyvc.contract import Contract, Raises
+from pyvc.contract import Contract, Raises, LoopSpec
 from pyvc.values import *   # noqa
 from pyvc.core import Obligation, EngineLimit
 from pyvc import regex as rx
@@ -135,3 +135,51 @@ def lemma_created_names_are_owned(repo):
 
 
 LEMMAS = [lemma_spliced_text_is_escaped, lemma_isolation, lemma_created_names_are_owned]
+
+
+# ---- the owned lists: an entry is appended exactly when an instance was created in the server
+K = FILE + '::WBEMSubscriptionManager.'
+CLASS_SPECS = {'CIMInstance': {'path': Ref('CIMInstanceName')}}
+CONN = Obj('WBEMConnection', _g_created=Int, _g_deleted=Int)
+SERVER = Obj('WBEMServer', interop_ns=Str, conn=CONN)
+MANAGER = Obj('WBEMSubscriptionManager', _owned_subscriptions=Rec(s1=ListOf(('ref', 'CIMInstance'))))
+get_server_c = Contract(K + '_get_server', returns_ghost='g_srv', raises={'ValueError': Raises()}, trusted=True,
+                        notes='returns the registered server object (dictionary lookup)')
+create_c = Contract('pywbem/_cim_operations.py::WBEMConnection.CreateInstance', returns=Ref('CIMInstanceName'),
+                    modifies=['self._g_created'],
+                    ensures=[('one-more-instance-in-the-server', 'self._g_created == old(self._g_created) + 1')],
+                    raises={'CIMError': Raises(post=[('nothing-created', 'self._g_created == old(self._g_created)')]),
+                            'ConnectionError': Raises(post=[('nothing-created', 'self._g_created == old(self._g_created)')])},
+                    trusted=True, notes='ghost counter: instances this connection created in the server')
+get_c = Contract('pywbem/_cim_operations.py::WBEMConnection.GetInstance', returns=Ref('CIMInstance'),
+                 raises={'CIMError': Raises(), 'ConnectionError': Raises()}, trusted=True)
+delete_c = Contract('pywbem/_cim_operations.py::WBEMConnection.DeleteInstance',
+                    modifies=['self._g_deleted'],
+                    ensures=[('one-instance-less', 'self._g_deleted == old(self._g_deleted) + 1')],
+                    raises={'Error': Raises(post=[('nothing-deleted', 'self._g_deleted == old(self._g_deleted)')])},
+                    trusted=True)
+path_init_c = Contract('pywbem/_cim_obj.py::CIMInstanceName.__init__', raises={}, trusted=True,
+                       notes='A-CIMOBJ: building the subscription path from two instance paths does not raise')
+inst_init_c = Contract('pywbem/_cim_obj.py::CIMInstance.__init__', raises={}, trusted=True)
+inst_setitem_c = Contract('pywbem/_cim_obj.py::CIMInstance.__setitem__', raises={}, trusted=True)
+path_setter_c = Contract('external::CIMInstance.path', sig=['self', 'path'], raises={}, trusted=True,
+                         notes='the path setter of CIMInstance (stores a copy of the path)')
+OWNED = "self._owned_subscriptions['s1']"
+CONTRACTS.append(Contract(
+    K + '_create_subscription',
+    params={'self': MANAGER, 'server_id': Lit('s1'), 'dest_path': Ref('CIMInstanceName'),
+            'filter_path': Ref('CIMInstanceName'), 'owned': Bool},
+    ghosts={'g_srv': SERVER},
+    callees={'_get_server': get_server_c, 'CreateInstance': create_c, 'GetInstance': get_c,
+             'CIMInstanceName.__init__': path_init_c, 'CIMInstance.__init__': inst_init_c,
+             'CIMInstance.__setitem__': inst_setitem_c, 'CIMInstance.path': path_setter_c},
+    opaque=['CIMInstanceName', 'CIMInstance'],
+    loops={1: LoopSpec(target='inst', types={'inst': Ref('CIMInstance')})},
+    ensures=[('owned-list-grows-exactly-by-what-this-call-created-in-the-server',
+              f'len({OWNED}) - old(len({OWNED})) == (g_srv.conn._g_created - old(g_srv.conn._g_created) if owned else 0)'),
+             ('earlier-entries-untouched', f'{OWNED}[:old(len({OWNED}))] == old({OWNED})'),
+             ('the-new-entry-is-the-returned-instance',
+              f'implies(len({OWNED}) > old(len({OWNED})), {OWNED}[-1] is result)')],
+    raises={'Error': Raises(post=[('owned-list-unchanged', f'{OWNED} == old({OWNED})')]),
+            'ValueError': Raises(post=[('owned-list-unchanged', f'{OWNED} == old({OWNED})')])},
+))
